@@ -324,7 +324,13 @@ func genValue(r *core.RNG) any {
 }
 
 func genOrigin(r *core.RNG) (any, bool) {
-	switch r.Intn(6) {
+	switch r.Intn(9) {
+	case 6:
+		return []any{"https://origin-a.example", "https://origin-b.example"}, true
+	case 7:
+		return core.Pick(r, []string{"12345", "true", "a b c"}), true
+	case 8:
+		return []any{jsonInt(r.Intn(50)), "x", true}, true
 	case 0:
 		return nil, false
 	case 1:
